@@ -382,6 +382,18 @@ def basis_monitor(rep, rng, n):
         bad.append("rows do not sum to zero")
     if np.max(np.abs(np.diag(G) - bd.center().norm(squared=True))) > 1e-9 * s:
         bad.append("diagonal is not the squared norm")
+    try:
+        for meth in ("simpson", "trapz"):
+            Gm = np.asarray(bd.inner_product(method_integration=meth), float)
+            nm = np.asarray(bd.norm(squared=True, method_integration=meth), float)
+            if np.max(np.abs(np.diag(Gm) - nm)) > 1e-9 * max(1.0, float(np.max(np.abs(Gm)))):
+                bad.append(f"squared norms ({meth}) are not the diagonal of the inner-product matrix computed with the same rule "
+                           f"(max deviation {np.max(np.abs(np.diag(Gm) - nm)):.3g})")
+            ev = np.asarray(bd.to_grid().norm(squared=True, method_integration=meth), float)
+            if np.max(np.abs(ev - nm)) > 1e-8 * max(1.0, float(np.max(np.abs(ev)))):
+                bad.append(f"squared norms ({meth}) from the coefficients differ from those of the evaluated curves")
+    except ModuleNotFoundError:
+        pass
     rep.case(("basis", name, coef.tobytes()), kind=f"basis-gram/{name}")
     if bad:
         rep.violation("basis-expansion Gram matrix (centred coefficients): " + "; ".join(bad),
